@@ -619,30 +619,69 @@ func c01Pen(c *Ctx, info *types.Info, render *FuncInfo, g *FG, rems []*Emission)
 }
 
 func c01Covered(c *Ctx, info *types.Info, render *FuncInfo, g *FG, rems []*Emission) {
-	// stores into screenLast.buf[row][col+i]
-	stores := g.Find(func(n ast.Node) bool {
-		as, ok := n.(*ast.AssignStmt)
-		if !ok || len(as.Lhs) != 1 {
-			return false
+	// stores into screenLast.buf[row][col+i]: in render itself or in a same-package helper it calls
+	isNullStore := func(info2 *types.Info) func(ast.Node) bool {
+		return func(n ast.Node) bool {
+			as, ok := n.(*ast.AssignStmt)
+			if !ok || len(as.Lhs) != 1 {
+				return false
+			}
+			ix, ok := as.Lhs[0].(*ast.IndexExpr)
+			if !ok {
+				return false
+			}
+			if !strings.Contains(types.ExprString(ix.X), "screenLast.buf") {
+				return false
+			}
+			_, isSum := unparen(ix.Index).(*ast.BinaryExpr)
+			return isSum
 		}
-		ix, ok := as.Lhs[0].(*ast.IndexExpr)
-		if !ok {
-			return false
+	}
+	type storeSite struct {
+		as   *ast.AssignStmt
+		info *types.Info
+		fn   string
+	}
+	var allStores []storeSite
+	helperWithStore := map[*types.Func]bool{}
+	for _, h := range g.Find(isNullStore(info)) {
+		allStores = append(allStores, storeSite{h.Node.(*ast.AssignStmt), info, render.Name})
+	}
+	for _, h := range g.Calls(func(fn *types.Func, _ *ast.CallExpr) bool { return fn != nil && c.P.FuncOfObj(fn) != nil }) {
+		fn := calleeOf(info, h.Node.(*ast.CallExpr))
+		hf := c.P.FuncOfObj(fn)
+		if hf == nil || hf.Decl.Body == nil || helperWithStore[fn] {
+			continue
 		}
-		if !strings.Contains(types.ExprString(ix.X), "screenLast.buf") {
-			return false
+		ast.Inspect(hf.Decl.Body, func(n ast.Node) bool {
+			if isNullStore(hf.Pkg.TypesInfo)(n) {
+				helperWithStore[fn] = true
+				allStores = append(allStores, storeSite{n.(*ast.AssignStmt), hf.Pkg.TypesInfo, hf.Name})
+			}
+			return true
+		})
+	}
+	// a node "nulls covered cells" if it is such a store or a call of a helper that contains one
+	isNulling := func(n ast.Node) bool {
+		if isNullStore(info)(n) {
+			return true
 		}
-		_, isSum := unparen(ix.Index).(*ast.BinaryExpr)
-		return isSum
-	})
-	if len(stores) == 0 {
+		if call, ok := n.(*ast.CallExpr); ok {
+			if fn := calleeOf(info, call); fn != nil && helperWithStore[fn] {
+				return true
+			}
+		}
+		return false
+	}
+	stores := g.Find(isNulling)
+	if len(allStores) == 0 {
 		c.bad("C01.i", render.Name+"/covered cells forgotten", render.Decl.Pos(), "render no longer nulls the cells covered by a wide glyph in the last-frame copy: a later narrow glyph there is followed by no re-emission of the covered cell")
 	}
-	for i, h := range stores {
-		as := h.Node.(*ast.AssignStmt)
+	for i, st := range allStores {
+		as := st.as
 		cl, ok := unparen(as.Rhs[0]).(*ast.CompositeLit)
-		zero := ok && len(cl.Elts) == 0 && typeName(info.TypeOf(cl)) == modPath+".Cell"
-		c.check(zero, "C01.i", fmt.Sprintf("%s/covered cell #%d stored as the zero Cell", render.Name, i+1), as.Pos(), "Cell{}", "the cell covered by a wide glyph is recorded as "+types.ExprString(as.Rhs[0])+" instead of being forgotten: the frame then relies on what the terminal leaves of a half-overwritten wide glyph")
+		zero := ok && len(cl.Elts) == 0 && typeName(st.info.TypeOf(cl)) == modPath+".Cell"
+		c.check(zero, "C01.i", fmt.Sprintf("%s/covered cell #%d stored as the zero Cell", st.fn, i+1), as.Pos(), "Cell{}", "the cell covered by a wide glyph is recorded as "+types.ExprString(as.Rhs[0])+" instead of being forgotten: the frame then relies on what the terminal leaves of a half-overwritten wide glyph")
 	}
 	// column advance by skip := vx.advance(next)
 	var skipObjs = map[types.Object]bool{}
